@@ -23,6 +23,26 @@ def counting_writer_calls(ctx, b):
     return out
 
 
+def ref_root(b, l, depth=0):
+    """Follow `x = &(*y)` / `x = copy y` chains: ('call', cs) | ('param', i) | ('local', l)"""
+    if l is None or depth > 12:
+        return None
+    ds = b.defs.get(l, [])
+    if not ds:
+        return ('param', l) if 1 <= l <= b.arg_count else ('local', l)
+    if len(ds) != 1:
+        return ('local', l)
+    (p, kind, data) = ds[0]
+    if kind == 'call':
+        return ('call', data)
+    if kind == 'assign' and not data['place']['p']:
+        rv = data['rv']
+        pl = rv['place'] if rv['k'] == 'ref' else (rv['op']['place'] if rv['k'] in ('use', 'cast') and rv['op']['k'] in ('copy', 'move') else None)
+        if pl is not None and all(e['k'] == 'deref' for e in pl['p']):
+            return ref_root(b, pl['l'], depth + 1)
+    return ('local', l)
+
+
 def outcome_field_op(b, exit_, field='wal_bytes_written'):
     """operand stored into `field` of the outcome struct returned by an Ok exit (API bodies)."""
     if not exit_.get('ops'):
@@ -52,24 +72,20 @@ def by1(ctx):
         for w in ws:
             n += 1
             seen += 1
-            back = fl.backward(set(fl.op_nodes(w.args[1]))) if len(w.args) > 1 else set()
-            ends = []
-            for bi, blk in enumerate(b.blocks):
-                if not b.live[bi]:
-                    continue
-                for st in blk['stmts']:
-                    if st['k'] == 'assign' and st['rv']['k'] == 'agg' and st['rv'].get('agg') == 'adt' and re.search(r'ops::Range(To|ToInclusive)?$', st['rv']['adt']) and not st['place']['p']:
-                        if ('l', st['place']['l']) in back or any(('lf', st['place']['l'], f) in back for f in st['rv'].get('fields', [])):
-                            e = agg_field_op(st['rv'], 'end')
-                            if e is not None:
-                                ends.append(e)
-            lens = [c for c in b.calls if c.name.endswith('::len') and c.args and set(fl.op_nodes(c.args[0])) & back]
+            # the slice argument: follow re-borrows to the slicing call / the original slice
             srcs = set()
-            for e in ends:
-                srcs |= fl.backward(set(fl.op_nodes(e))) & {x for x in fl.backward(set(fl.op_nodes(e))) if x[0] == 'l'}
-                srcs |= set(fl.op_nodes(e))
-            for c in lens:
-                srcs |= set(fl.call_result_nodes(c))
+            root = ref_root(b, op_local(w.args[1])) if len(w.args) > 1 and op_local(w.args[1]) is not None else None
+            if root is not None and root[0] == 'call' and re.search(r'ops::Index(Mut)?<std::ops::Range', root[1].name) and len(root[1].args) > 1:
+                rl = op_local(root[1].args[1])
+                for o in (b.trace_local(rl) if rl is not None else []):
+                    if o[0] == 'rv' and o[2]['k'] == 'agg' and re.search(r'ops::Range(To|ToInclusive)?$', o[2].get('adt', '')):
+                        e = agg_field_op(o[2], 'end')
+                        if e is not None:
+                            srcs |= set(fl.op_nodes(e))
+            elif root is not None and root[0] in ('local', 'param'):
+                for c in b.calls:
+                    if c.name.endswith('::len') and c.args and op_local(c.args[0]) is not None and ref_root(b, op_local(c.args[0])) == root:
+                        srcs |= set(fl.call_result_nodes(c))
             t = fl.forward({x for x in srcs})
             reach_exits = [e for e in exits if e['point'] in b.reach_after(w.point)]
             ok = bool(srcs) and bool(reach_exits) and all(e['ops'] and fl.op_tainted(e['ops'][0], t) for e in reach_exits)
